@@ -128,18 +128,22 @@ fn parse_cfg(c: &Value) -> (SrvCfg, Value) {
     if let Some(a) = c["auth"].as_str() {
         cfg.auth = a.into();
     }
-    let p = &c["pic"];
-    if p.is_object() {
+    let picture = |p: &Value, tb: u8| {
         let size = |v: &Value, tag: u8| v.as_i64().filter(|n| *n >= 0).map(|n| pic_bytes(n as usize, tag));
-        cfg.pic = Picture {
-            embedded: size(&p["embedded"], 1),
-            file: size(&p["file"], 2),
+        Picture {
+            embedded: size(&p["embedded"], 1 + tb),
+            file: size(&p["file"], 2 + tb),
             mime: opt_bytes(&p["mime"]),
             limit: p["limit"].as_u64().unwrap_or(8192) as usize,
             embedded_ack: p["embedded_ack"].as_u64().unwrap_or(0),
             file_ack: p["file_ack"].as_u64().unwrap_or(0),
             vary: p["vary"].as_bool().unwrap_or(false),
-        };
+        }
+    };
+    if c["pic"].is_object() {
+        cfg.pic = picture(&c["pic"], 0);
+        // URIs ending in "_alt.flac" have their own picture (same shape unless given), with other content tags
+        cfg.pic2 = picture(if c["pic2"].is_object() { &c["pic2"] } else { &c["pic"] }, 2);
     }
     (cfg, c.clone())
 }
@@ -197,7 +201,7 @@ impl Driver {
         let done2 = done.clone();
         let started = Arc::new(Mutex::new(false));
         let started2 = started.clone();
-        let uri = format!("{}.flac", req_id(c, n, None));
+        let uri = format!("{}{}.flac", req_id(c, n, None), if st["alt"].as_bool().unwrap_or(false) { "_alt" } else { "" });
         let handle = tokio::spawn(async move {
             let specs: Vec<Value> = cmds
                 .iter()
@@ -270,13 +274,7 @@ impl Driver {
                 "art" => match cl.album_art(&uri).await {
                     Ok(None) => res_json("art_none", vec![], 0, 0, b"", b"", ""),
                     Ok(Some((data, mime))) => {
-                        let which = if data[..] == pic_bytes(data.len(), 1)[..] {
-                            1
-                        } else if data[..] == pic_bytes(data.len(), 2)[..] {
-                            2
-                        } else {
-                            0
-                        };
+                        let which = (1..=4u8).find(|t| data[..] == pic_bytes(data.len(), *t)[..]).unwrap_or(0) as u64;
                         // code = length, idx = which source the bytes equal (projection computed here, see DESIGN)
                         res_json("art", vec![], data.len() as u64, which, b"", mime.as_deref().unwrap_or("").as_bytes(), if mime.is_some() { "mime" } else { "" })
                     }
@@ -462,6 +460,7 @@ pub fn run_one(run: &Value) -> Vec<Value> {
         {
             let mut s = mm.lock().unwrap();
             let pic = s.cfg.pic.clone();
+            let pic2 = s.cfg.pic2.clone();
             let sz = |o: &Option<Vec<u8>>| o.as_ref().map(|v| v.len() as i64).unwrap_or(-1);
             let _ = &cfgv;
             let scfg = s.cfg.clone();
@@ -470,7 +469,9 @@ pub fn run_one(run: &Value) -> Vec<Value> {
                 "has_srv_pw": scfg.password.is_some(), "srv_pw": scfg.password.clone().unwrap_or_default(),
                 "auth": scfg.auth, "greeting": greeting, "nh": ncallers + if observer_handle { 1 } else { 0 },
                 "pic": {"embedded": sz(&pic.embedded), "file": sz(&pic.file), "hasMime": pic.mime.is_some(), "mime": pic.mime.clone().unwrap_or_default(),
-                        "limit": pic.limit, "embedded_ack": pic.embedded_ack, "file_ack": pic.file_ack, "vary": pic.vary}}));
+                        "limit": pic.limit, "embedded_ack": pic.embedded_ack, "file_ack": pic.file_ack, "vary": pic.vary},
+                "pic2": {"embedded": sz(&pic2.embedded), "file": sz(&pic2.file), "hasMime": pic2.mime.is_some(), "mime": pic2.mime.clone().unwrap_or_default(),
+                        "limit": pic2.limit, "embedded_ack": pic2.embedded_ack, "file_ack": pic2.file_ack, "vary": pic2.vary}}));
             s.max_read = run["cfg"]["max_read"].as_u64().unwrap_or(0) as usize;
             s.max_write = run["cfg"]["max_write"].as_u64().unwrap_or(0) as usize;
             let gl = Line { t: "greet", k: vec![], v: greeting.clone(), a: 0, b: 0, bytes: greeting.clone() };
